@@ -23,7 +23,11 @@ THEOREMS = ['C16.translation_succeeds', 'C16.translation_accepted', 'C16.layout_
             # accepted by the translated lib.rs verify, the target's image is valid; from the text side for FragmentShape databases
             'C16.translation_bytes_accepted_by_rust_text', 'C16.accepted_translation_bytes', 'C16.translation_u8_accepted',
             'C16.translation_full_text_is_the_model', 'C16.translation_text_bytes_accepted_by_rust_text', 'C16.translation_text_run_accepted',
-            'C16.translation_text_sound', 'C16.exDB_accepted', 'C16.ExampleCanon.db_text_accepted', 'C16.ExampleCanon.db_text_sound']
+            'C16.translation_text_sound', 'C16.exDB_accepted', 'C16.ExampleCanon.db_text_accepted', 'C16.ExampleCanon.db_text_sound',
+            # the specification on databases WITH notations is well formed (Props/C16c.lean, ConvSugar*.lean): FragmentShape + no notation
+            # for \\imp / \\app ⇒ dbOfMDb answers, db.wf, coherence of goal / proof / table; then the translation theorems apply
+            'C16.notation_for_imp_rejected', 'C16.spec_of_shape_with_notations', 'C16.spec_wf_of_shape_with_notations',
+            'C16.spec_coherent_with_notations', 'C16.translation_of_shaped_notation_database', 'C16.translation_notation_example']
 
 
 def image(t, float_order):
@@ -251,7 +255,7 @@ def unhex(h):
 
 def run(rep):
     rng = random.Random(rep.seed * 1000003 + 16)
-    ok, detail = core.proof_gate(rep, 'Pi2.Props.C16b', THEOREMS)
+    ok, detail = core.proof_gate(rep, 'Pi2.Props.C16c', THEOREMS)
     core.rust_build()
     quick = rep.tier == 'quick'
     cases = [make_case(rng, quick) for _ in range(50 if quick else 1000)]
